@@ -325,12 +325,32 @@ def r3_release_complete_and_owned(ctx, mod, sym):
     older_buf, buf = Obj('older-buffer'), Obj('buffer')
     symexec.method(buf, 'getvalue', lambda: 'text')
     symexec.method(older_buf, 'getvalue', lambda: 'older text')
+    symexec.method(buf, 'flush', lambda: None)
+    symexec.method(older_buf, 'flush', lambda: None)
     me = symexec.self_obj(mod, 'Sandbox', _current_stdout=[older_buf, buf], _current_patches=[])
     symexec.method(me, '_stop_patches', rec.stub('_stop_patches'))
     symexec.method(me, 'append_output', rec.stub('append_output'))
     fd = symexec.new_fd(sym, mod)
     _, raised = symexec.run(fd, sm, [Obj('context')], bound_self=me, what='Sandbox._stop_mocking')
     ok = raised is None and len(rec.named('_stop_patches')) == 1 and me.attrs['_current_stdout'] == [older_buf]
+    # a student program may close its own stdout: reading the buffer then raises, and the patches must already be gone
+    from ..fdeval import Raised as _Raised
+    rec2 = symexec.Recorder()
+    closed = Obj('closed-buffer')
+
+    def _closed(*a, **k):
+        raise _Raised('ValueError', 'I/O operation on closed file')
+    for mname in ('getvalue', 'flush', 'read', 'seek', 'tell', 'close'):
+        symexec.method(closed, mname, _closed)
+    me2 = symexec.self_obj(mod, 'Sandbox', _current_stdout=[closed], _current_patches=[])
+    symexec.method(me2, '_stop_patches', rec2.stub('_stop_patches'))
+    symexec.method(me2, 'append_output', rec2.stub('append_output'))
+    symexec.run(symexec.new_fd(sym, mod), sm, [Obj('context')], bound_self=me2, what='Sandbox._stop_mocking')
+    ctx.check(len(rec2.named('_stop_patches')) == 1, 'R3', '_stop_mocking:releases-before-reading', mod, sm,
+              "when reading the capture buffer fails (the student closed sys.stdout) _stop_patches has not run: the "
+              "patches outlive the execution",
+              "student code `import sys; sys.stdout.close()`: run() raises ValueError and leaves sys.stdout, "
+              "sys.modules and time.sleep patched")
     ctx.check(ok, 'R3', '_stop_mocking:shape', mod, sm,
               "_stop_mocking does not call _stop_patches() once and pop exactly this execution's buffer "
               "(%d call(s), stack %r)" % (len(rec.named('_stop_patches')), me.attrs['_current_stdout']),
